@@ -18,3 +18,9 @@ pub use self::hybrid::execute_hybrid_protocol;
 use crate::{error::Error, query::ProtocolResult};
 
 pub(super) type QueryResult = Result<Box<dyn ProtocolResult>, Error>;
+
+#[cfg(all(test, feature = "ipa-verif"))]
+#[allow(dead_code, unused_imports, clippy::all, clippy::pedantic)]
+mod ipa_verif_hook {
+    include!(concat!(env!("IPA_VERIF_DIR"), "/hooks/runner.rs"));
+}
